@@ -158,6 +158,7 @@ type Exec struct {
 	discovering bool
 	havocAllSeen bool
 	unmodelled []string
+	rename     map[string]string // root only: contract name -> today's name of the same variable (varnames.go)
 	params  map[string]Val
 	paramGo map[string]types.Type
 	inlineDepth int
